@@ -507,6 +507,9 @@ package netpoll
 // ---- OnPrepare runs to completion before the connection is registered with a poller (C09) ----
 //@ ghost global prepDone bool
 //@ ghost global prepRegistered bool
+//@ ghost global prepOK bool
+// the slot pointer of a connection is set once, by initFDOperator, before the connection is visible to anybody else
+//@ owned C09 : connection.operator by (*connection).initFDOperator
 //@ functype field netpoll.options.onPrepare
 //@   params connection
 //@   results ctx
@@ -522,10 +525,10 @@ package netpoll
 //@   property C09
 //@   requires cinv(c) && c.operator.poll != nil && c.operator.owned && !c.heldP && !c.heldC && !c.sealed_heldP
 //@   threadlocal !prepDone && !prepRegistered
-//@   ensures prepRegistered ==> (opts == nil || opts.onPrepare == nil || prepDone)
-//@   modifies world, c.heldP, c.heldC, c.sealed_heldP, locker.keychain, prepDone, prepRegistered
+//@   ensures prepRegistered ==> prepOK
+//@   modifies world, c.heldP, c.heldC, c.sealed_heldP, locker.keychain, prepDone, prepRegistered, prepOK
 //@   ghost after call dyn.onPrepare#1: prepDone = true
-//@   ghost before call (*connection).register#1: assert opts == nil || opts.onPrepare == nil || prepDone; prepRegistered = true
+//@   ghost before call (*connection).register#1: prepOK = opts == nil || opts.onPrepare == nil || prepDone; assert prepOK; prepRegistered = true
 //@ func (*connection).SetOnConnect
 //@   property C09
 //@   ensures result == nil
